@@ -7,6 +7,7 @@ import (
 	"encoding/json"
 	"errors"
 	"fmt"
+	"math"
 	"os"
 	"path/filepath"
 	"runtime"
@@ -304,7 +305,10 @@ func genOp(t *rapid.T, c cfg, now int64, m model, lastUsable int64) op {
 	o.Op = rapid.SampledFrom([]string{"try", "reserve", "tryreserve", "tryreserve"}).Draw(t, "op")
 	if o.Op == "tryreserve" {
 		pred := m.Clone().Acquire(o.T, o.N, -1)
-		switch rapid.IntRange(0, 6).Draw(t, "mwClass") {
+		switch rapid.IntRange(0, 7).Draw(t, "mwClass") {
+		case 7:
+			// "wait as long as it takes", written as the largest duration (or nearly): never a refusal
+			o.MW = math.MaxInt64 - rapid.SampledFrom([]int64{0, 0, 1, u, 1000}).Draw(t, "mwBelowMax")
 		case 0:
 			o.MW = 0
 		case 1:
@@ -703,6 +707,9 @@ func TestBlockingAcquire(t *testing.T) {
 			c.Max = rapid.IntRange(1, 3).Draw(t, "max")
 		}
 		polMaxWait := int64(rapid.SampledFrom([]int{0, 1, 3, 8}).Draw(t, "polMaxWaitMs")) * int64(time.Millisecond)
+		if rapid.IntRange(0, 5).Draw(t, "polWaitForever") == 0 {
+			polMaxWait = math.MaxInt64 // "as long as it takes"
+		}
 		limited := 0
 		l := newLimiter(c, func(b ratelimiter.RateLimiterBuilder[int]) {
 			b.WithMaxWaitTime(time.Duration(polMaxWait)).OnRateLimitExceeded(func(failsafe.ExecutionEvent[int]) { limited++ })
@@ -726,6 +733,9 @@ func TestBlockingAcquire(t *testing.T) {
 			n = 1
 		}
 		mw := int64(rapid.SampledFrom([]int{0, 1, 2, 5, 10, 20}).Draw(t, "mwMs")) * int64(time.Millisecond)
+		if rapid.IntRange(0, 5).Draw(t, "waitForever") == 0 {
+			mw = math.MaxInt64 - int64(rapid.IntRange(0, 1).Draw(t, "belowMax"))
+		}
 		ctxKind := rapid.SampledFrom([]string{"background", "background", "nil", "cancelled", "cancel-during", "deadline-during", "deadline-at-wait"}).Draw(t, "ctx")
 		if api == "Run" || api == "GetAsync" {
 			mw = polMaxWait
